@@ -1190,6 +1190,9 @@ class SCFGIO:
         for b in sorted(blocks):
             ys += indent(f"'{b}':\n", " " * 8)
             for k, v in blocks[b].items():
+                # Quote strings, a block name such as '1' must not be read
+                # back as an integer.
+                v = repr(v) if isinstance(v, str) else v
                 ys += indent(f"{k}: {v}\n", " " * 12)
 
         ys += "\nedges:\n"
